@@ -621,7 +621,7 @@ fn c07_strings(maxlen: usize) -> Vec<String> {
 
 const C07_POS: &[&str] = &[
     "pragma-data", "include", "defframe-name", "pulse-frame", "capture-frame", "raw-capture-frame", "set-phase-frame", "set-scale-frame", "set-frequency-frame", "shift-phase-frame", "shift-frequency-frame", "swap-phases-frames", "delay-one-name",
-    "delay-two-names", "frame-attribute-string", "defcal-body-frame",
+    "delay-two-names", "frame-attribute-string", "defcal-body-frame", "defcal-body-pragma", "defmeasurecal-body-pragma", "defcircuit-body-pragma", "defcircuit-body-frame",
 ];
 
 fn c07_build(pos: &str, st: &str) -> Instruction {
@@ -644,6 +644,16 @@ fn c07_build(pos: &str, st: &str) -> Instruction {
         "delay-one-name" => Instruction::Delay(Delay::new(one.clone(), vec![st.to_string()], vec![Qubit::Fixed(0)])),
         "delay-two-names" => Instruction::Delay(Delay::new(one.clone(), vec![st.to_string(), format!("z{st}")], vec![Qubit::Fixed(0), Qubit::Fixed(1)])),
         "frame-attribute-string" => Instruction::FrameDefinition(FrameDefinition::new(f("f"), [("K".to_string(), AttributeValue::String(st.to_string()))].into_iter().collect())),
+        "defcal-body-pragma" => Instruction::CalibrationDefinition(CalibrationDefinition::new(
+            CalibrationIdentifier::new("X".into(), vec![], vec![], vec![Qubit::Fixed(0)]).unwrap(),
+            vec![Instruction::Pragma(Pragma::new("P".into(), vec![], Some(st.to_string()))), Instruction::Nop()],
+        )),
+        "defmeasurecal-body-pragma" => Instruction::MeasureCalibrationDefinition(MeasureCalibrationDefinition::new(
+            MeasureCalibrationIdentifier::new(None, Qubit::Fixed(0), None),
+            vec![Instruction::Pragma(Pragma::new("P".into(), vec![], Some(st.to_string()))), Instruction::Nop()],
+        )),
+        "defcircuit-body-pragma" => Instruction::CircuitDefinition(CircuitDefinition::new("C".into(), vec![], vec![], vec![Instruction::Pragma(Pragma::new("P".into(), vec![], Some(st.to_string()))), Instruction::Nop()])),
+        "defcircuit-body-frame" => Instruction::CircuitDefinition(CircuitDefinition::new("C".into(), vec![], vec![], vec![Instruction::Pulse(Pulse::new(true, f(st), wf())), Instruction::Nop()])),
         _ => Instruction::CalibrationDefinition(CalibrationDefinition::new(
             CalibrationIdentifier::new("X".into(), vec![], vec![], vec![Qubit::Fixed(0)]).unwrap(),
             vec![Instruction::Delay(Delay::new(one.clone(), vec![st.to_string()], vec![Qubit::Fixed(0)])), Instruction::Pulse(Pulse::new(false, f(st), wf()))],
@@ -679,7 +689,7 @@ pub static C07: PropDef = PropDef {
     id: "C07",
     level: "exploration",
     engine: "sweep",
-    rule: "every string of length <= 4 (thorough <= 6) over {quote, backslash, newline, space, #, ;, a} (2801 / 137257 strings) x 16 string-bearing positions (pragma data, include, frame name in DEFFRAME / PULSE / CAPTURE / RAW-CAPTURE / SET-* / SHIFT-* / SWAP-PHASES, DELAY with one and two frame names, string frame attribute, frame names inside a DEFCAL body), built through the API, printed and parsed. non-trivial = string containing a character that needs escaping (distinct by string+position)",
+    rule: "every string of length <= 4 (thorough <= 6) over {quote, backslash, newline, space, #, ;, a} (2801 / 137257 strings) x 20 string-bearing positions (pragma data, include, frame name in DEFFRAME / PULSE / CAPTURE / RAW-CAPTURE / SET-* / SHIFT-* / SWAP-PHASES, DELAY with one and two frame names, string frame attribute, frame names and pragma data inside DEFCAL / DEFCAL MEASURE / DEFCIRCUIT bodies), built through the API, printed and parsed. non-trivial = string containing a character that needs escaping (distinct by string+position)",
     assumptions: &["bounded alphabet and length"],
     run: |ctx| {
         let strs = c07_strings(ctx.tier.pick(4, 6));
